@@ -54,7 +54,7 @@ def finish_worker(ctx):
 
 def make_case(ctx, idx):
     r = case_rng(ctx.seed, ID, idx)
-    ops = gen.Gen(r, gen.profile("c01")).program()
+    ops = gen.Gen(r, gen.profile("c01", multi_member=0.15)).program()
     if ctx.tier == "quick":
         opts = r.sample(range(len(OPTS)), 2)
     else:
